@@ -240,7 +240,7 @@ def run(ctx):
                 "(recorded; also with the encryptor dying from SIGKILL / SIGTERM after passing on half of its output) and with a stand-in encryptor emitting exactly N bytes for N in {1, L-1, L, L+1, 2L, 2L+1, 3L} around the Dropbox "
                 "request limit lowered to L = 65536 by the hook%s. Non-trivial: every run; distinct by (provider, passphrase, mode, limit, sizes)."
                 % ("; plus the real limit 150 MiB with N in {150 MiB - 1, 150 MiB, 150 MiB + 1, 300 MiB} on the release build" if thorough else ""))
-    pws = PASSPHRASES if thorough else [PASSPHRASES[0], rng.choice(PASSPHRASES[1:])]
+    pws = PASSPHRASES if thorough else [PASSPHRASES[0], PASSPHRASES[2], rng.choice([PASSPHRASES[1]] + PASSPHRASES[3:])]
     for provider in ("dropbox", "yandex", "google"):
         for i, pw in enumerate(pws):
             big = rng.choice([200000, 700000, 3000000] if thorough else [150000, 400000]) if (i == 0 or thorough) else 0
